@@ -798,7 +798,10 @@ impl Session {
     }
 
     fn handle(&mut self, m: Msg) -> Flow {
-        self.last_msg_ns = now_ns();
+        if m.typ != b'X' {
+            // (the pooler's parting Terminate is handled whenever this thread gets scheduled)
+            self.last_msg_ns = now_ns();
+        }
         self.seq += 1;
         let seq = self.seq;
         let raw = Arc::new(if self.log.keep_bytes.load(Ordering::Relaxed) || m.body.len() < 512 {
@@ -1531,6 +1534,19 @@ impl Session {
 
         if d.get("err").map(|v| v == "pre").unwrap_or(false) {
             return fail(self, "22012", "division by zero (scripted)");
+        }
+        if d.contains_key("errraw") {
+            // error message echoing an identifier that is not valid UTF-8 (LATIN1 client_encoding)
+            self.out.extend_from_slice(&proto::error_response_bytes("ERROR", "42P01", b"relation \"caf\xe9\xff\" does not exist"));
+            if extended {
+                self.ignore_till_sync = true;
+                if self.tx == b'T' {
+                    self.tx = b'E';
+                } else if self.tx == b'I' {
+                    self.end_implicit(false);
+                }
+            }
+            return Ok(false);
         }
 
         match k0.as_str() {
